@@ -46,6 +46,15 @@ def sem_fixed():
         Variant("FxN", "newtype", [Field(None, user(s1), inline=True)])]))
     add(Item("FxIntInline", "FxIntInline", "enum", tag="fxi", variants=[
         Variant("FxM", "newtype", [Field(None, user(s1), inline=True)]), Variant("FxO", "unit")]))
+    # the only field flattens a struct that consists of two flattened enums: `(A | B) & (C | D)` must keep its parentheses
+    ea = add(Item("FxEnumA", "FxEnumA", "enum", variants=[
+        Variant("FxA1", "struct", [Field("fx_a1", prim("i32"))]), Variant("FxA2", "struct", [Field("fx_a2", prim("bool"))])]))
+    eb = add(Item("FxEnumB", "FxEnumB", "enum", variants=[
+        Variant("FxB1", "struct", [Field("fx_b1x", prim("String"))]), Variant("FxB2", "struct", [Field("fx_b2x", prim("u8"))])]))
+    mid = add(Item("FxTwoEnums", "FxTwoEnums", "named", fields=[
+        Field("fx_ea", user(ea), flatten=True), Field("fx_eb", user(eb), flatten=True)]))
+    add(Item("FxOnlyFlatTwoEnums", "FxOnlyFlatTwoEnums", "named", fields=[Field("fx_mid", user(mid), flatten=True)]))
+    add(Item("FxInlineTwoEnums", "FxInlineTwoEnums", "named", fields=[Field("fx_k2", prim("u8")), Field("fx_mid2", user(mid), inline=True)]))
     g.items = items
     g.make_entries()
     return g
